@@ -184,6 +184,25 @@ pub fn craft(w: &Rc<World>, _node: usize, kind: &str, spoof_p: Option<u32>, a: i
     };
     let mut m = rtps_header(&prefix);
     let writer = eid(d as u32);
+    // a == -2: the sequence number the (forged) writer would use next, from the captured traffic
+    let a = if a == -2 {
+        use crate::wire::Sub;
+        with_net(|n| {
+            let mut max_sn = 0i64;
+            for w in n.wire.iter().filter(|w| w.parsed.src_prefix == prefix) {
+                for s in &w.parsed.subs {
+                    match s {
+                        Sub::Data { writer: x, sn, .. } | Sub::DataFrag { writer: x, sn, .. } if *x == d as u32 && *sn < (1 << 40) => max_sn = max_sn.max(*sn),
+                        Sub::Heartbeat { writer: x, last, .. } if *x == d as u32 && *last < (1 << 40) => max_sn = max_sn.max(*last),
+                        _ => {}
+                    }
+                }
+            }
+            max_sn + 1
+        })
+    } else {
+        a
+    };
     let reader = [0u8; 4];
     let bitmap = |nbits: u32, fill: u32| -> Vec<u8> {
         let mut v = nbits.to_le_bytes().to_vec();
